@@ -20,8 +20,12 @@ CONTRACTS = [
         requires="max_concurrent >= 1",
         spec="specs.c11:merge_concurrent",
         cells={"active_count": "cell:int", "is_stopped": "cell:bool", "queue": "seq[ref:source]", "group.disposable": "seq"},
+        # the group holds exactly one entry per subscribed inner, plus the outer subscription once source.subscribe returned
+        # (a source that emits during subscribe finds the group without it): "at most n inner sequences are subscribed
+        # at any time" counts subscriptions that were not released yet, also at every call-out
         inv="active_count[0] == s.active and is_stopped[0] == s.stopped and same(queue, s.q) and s.active >= 0 "
-            "and s.active <= max_concurrent and implies(len(queue) > 0, s.active == max_concurrent)",
+            "and s.active <= max_concurrent and implies(len(queue) > 0, s.active == max_concurrent) "
+            "and s.active <= len(group.disposable) and len(group.disposable) <= 1 + s.active",
         families={"inner": dict(spec=INNER, inv="contains(group.disposable, subscription) and s.active >= 1")},
     ),
     OpContract(
